@@ -26,6 +26,8 @@ var checks = map[string]entry{
 	"C06": {"exploration", mon.CheckC06},
 	"C07": {"exploration", mon.CheckC07},
 	"C08": {"exploration", mon.CheckC08},
+	"C09": {"exploration", mon.CheckC09},
+	"C10": {"exploration", mon.CheckC10},
 	"C15": {"exploration", mon.CheckC15},
 	"C16": {"exploration", mon.CheckC16},
 	"C18": {"exploration", mon.CheckC18},
